@@ -118,3 +118,17 @@ def outcome(fn):
         return fn()
     except Exception as e:  # noqa: BLE001 - outcome
         return ("exc", type(e).__name__)
+
+
+def safe_make(it, **kw):
+    """it.make(...) that never raises: building an item can already load templates (template objects passed
+    as data, pre-loaded helpers); if that fails the returned get_main re-raises the error when called, so the
+    failure is an OUTCOME of the variant under comparison instead of a harness error."""
+    try:
+        return it.make(**kw)
+    except Exception as e:  # noqa: BLE001
+
+        def gm(e=e):
+            raise e
+
+        return None, gm, {}
